@@ -331,6 +331,25 @@ def floordiv_mod(a, b):
     return res
 
 
+def div_shift(a, b, k):
+    """theorem of integer arithmetic, registered for the solver: divmod(a + k*b, b) == (divmod(a, b)[0] + k, divmod(a, b)[1]).
+    (a + k*b = b*(q + k) + r with r in the remainder range of b, and the decomposition is unique.)"""
+    q, r = floordiv_mod(a, b)
+    c = ctx()
+    at2 = _int_t(a) + _int_t(k) * _int_t(b)
+    bt = _int_t(b)
+    q2, r2 = _int_t(q) + _int_t(k), _int_t(r)
+    key = (z3.simplify(at2, som=True).sexpr(), z3.simplify(bt, som=True).sexpr())
+    memo = c.__dict__.setdefault('div_memo', {})
+    if key not in memo:
+        memo[key] = (mk_int(q2), mk_int(r2))
+        for (a3, b3, q3, r3) in c.__dict__.setdefault('div_list', []):
+            if b3.eq(bt):
+                c.assume(z3.Implies(at2 == a3, z3.And(q2 == q3, r2 == r3)))
+        c.div_list.append((at2, bt, q2, r2))
+    return q, r
+
+
 class SInt:
     __slots__ = ('term',)
 
